@@ -40,7 +40,7 @@ ShapeKts  == {"oaep", "oaep11", "pkcs1", "unknown", "empty"}
 
 Base == [sub |-> "bind", alg |-> "aes128-gcm", kt |-> "oaep", dig |-> "none", detached |-> FALSE, recipient |-> "absent",
          keycfg |-> "fieldTLS", validate |-> FALSE, certform |-> "valid", shape |-> "ok", residue |-> 0, zeros |-> FALSE,
-         rootsigned |-> FALSE]
+         rootsigned |-> FALSE, alg2 |-> "none", kt2 |-> "none", dig2 |-> "none", detached2 |-> FALSE]
 
 Bind  == { [Base EXCEPT !.sub = "bind", !.alg = a, !.recipient = r, !.validate = v, !.certform = c, !.rootsigned = rs, !.detached = d] :
              a \in BindAlgs, r \in {"absent", "match", "mismatch"}, v \in BOOLEAN, c \in {"valid", "empty", "garbage"},
@@ -55,7 +55,14 @@ Trip  == { [Base EXCEPT !.sub = "trip", !.alg = a, !.kt = kd[1], !.dig = kd[2], 
 Lens  == { [Base EXCEPT !.sub = "len", !.alg = a, !.kt = k, !.residue = n, !.zeros = z] :
              a \in DataAlgs, k \in {"oaep", "pkcs1"}, n \in Residues, z \in BOOLEAN }
 
-Inputs == Bind \cup Shape \cup Trip \cup Lens
+\* multi: one Response carrying two honestly encrypted, IdP-signed assertions (GA1 then GA2) whose EncryptedKey forms are
+\* chosen independently (alg2, kt2, dig2, detached2 describe the second): nothing of the first may influence the second
+KtDigMulti == { <<"oaep", "none">>, <<"oaep", "sha256">>, <<"pkcs1", "none">> }
+Multi == { [Base EXCEPT !.sub = "multi", !.alg = a, !.kt = kd[1], !.dig = kd[2], !.detached = d,
+                        !.alg2 = a2, !.kt2 = kd2[1], !.dig2 = kd2[2], !.detached2 = d2] :
+             a \in BindAlgs, a2 \in BindAlgs, kd \in KtDigMulti, kd2 \in KtDigMulti, d \in BOOLEAN, d2 \in BOOLEAN }
+
+Inputs == Bind \cup Shape \cup Trip \cup Lens \cup Multi
 Cfgs   == [now : Nows]
 CaseOK(cfg, in) == (in.sub # "bind") => cfg.now = 8      \* the clock only matters for the binding sub-space
 
@@ -93,7 +100,7 @@ C07_OK(cfg, in, o) ==
 C09_OK(cfg, in, o) == o.res \in {"accept", "reject", "na"} /\ o.dec \in {"ok", "wrong", "error", "na"}
 
 C11_OK(cfg, in, o) ==
-   /\ (in.sub = "trip") => (o.dec = "ok" /\ o.res = "accept" /\ o.twin)
+   /\ (in.sub \in {"trip", "multi"}) => (o.dec = "ok" /\ o.res = "accept" /\ o.twin)
    /\ (in.sub = "len")  => o.dec = "ok"
    /\ (in.sub = "bind" /\ DecryptOK(cfg, in) /\ in.certform = "valid" /\ in.keycfg # "rotating") => (o.res = "accept" /\ o.twin)
 
